@@ -82,6 +82,13 @@ func (h *RetryHandler) ExecuteWithRetry(
 			return nil
 		}
 
+		// An endpoint whose circuit breaker is open was skipped, not tried: move on to the
+		// next candidate without touching its health status.
+		if IsCircuitOpen(lastErr) {
+			availableEndpoints = h.removeFailedEndpoint(availableEndpoints, endpoint)
+			continue
+		}
+
 		if !IsConnectionError(lastErr) {
 			// Non-connection error warrants immediate failure
 			return lastErr
@@ -191,6 +198,23 @@ func (h *RetryHandler) buildFinalError(availableEndpoints []*domain.Endpoint, ma
 		return fmt.Errorf("all endpoints failed with connection errors: %w", lastErr)
 	}
 	return fmt.Errorf("max attempts (%d) reached: %w", maxRetries, lastErr)
+}
+
+// CircuitOpenError is returned by a proxy engine when it refuses to contact an endpoint
+// because that endpoint's circuit breaker is open. Nothing was sent, so the request can
+// safely be offered to another candidate.
+type CircuitOpenError struct {
+	Endpoint string
+}
+
+func (e *CircuitOpenError) Error() string {
+	return fmt.Sprintf("circuit breaker open for endpoint %s", e.Endpoint)
+}
+
+// IsCircuitOpen reports whether err means "endpoint skipped because its circuit is open".
+func IsCircuitOpen(err error) bool {
+	var co *CircuitOpenError
+	return errors.As(err, &co)
 }
 
 // ResponseStartedError marks a proxy failure that happened after the backend's response had
